@@ -228,6 +228,7 @@ static int st_first;
 /* receiver variants: 0 mpt_stream_dispatch on a plain stream, 1 the input object of mpt_stream_input
  * (its own dispatch), 2 mpt_stream_sync with a table of waiting commands */
 static int st_mode, st_rfd = -1;
+static int st_code, st_zpe;
 static int st_inmsg, st_torn;   /* data written since the last end of message; part of that message flushed already */
 static MPT_INTERFACE(input) *st_in;
 #define ST_NCMD 9
@@ -269,7 +270,8 @@ static int st_cb(void *arg, const MPT_STRUCT(message) *m)
 	put_bytes(buf, len);
 	free(buf);
 	++st_got;
-	return 0;
+	/* bits above the handler's own flags: the dispatcher must not hand them on as its control flags */
+	return MPT_EVENTFLAG(CtlError);
 }
 static int st_ev(void *arg, MPT_STRUCT(event) *ev)
 {
@@ -302,7 +304,7 @@ static void st_cmd(void)
 			else { puts("bad-op"); return; }
 		}
 		st_close();
-		st_mode = mode;
+		st_mode = mode; st_code = code; st_zpe = zpe;
 		if (socketpair(AF_UNIX, SOCK_STREAM, 0, p1) < 0 || socketpair(AF_UNIX, SOCK_STREAM, 0, p2) < 0) { puts("R nosocket | C - | I -"); return; }
 		st_h1 = p1[1]; st_h2 = p2[0];
 		st_tblen = st_tbpos = 0;
@@ -398,6 +400,43 @@ static void st_cmd(void)
 		st_moved += off;
 		printf("R ok n=%zu | C - | I -\n", off);
 	}
+	else if (!strcmp(op, "mem") && drv_nw == 2) {
+		/* a second receiver reads everything flushed so far from memory (mpt_stream_memory) instead of a descriptor;
+		 * the stream object had a descriptor before: it must not be used any more.  In-place decoding of the zero
+		 * pair framings needs work area a read-only memory block does not have: not asked for */
+		if (st_zpe) { puts("R skipped | C - | I -"); return; }
+		MPT_STRUCT(stream) ms = MPT_STREAM_INIT;
+		MPT_STRUCT(socket) sock;
+		struct iovec in;
+		int p3[2], r, n = 0;
+		size_t keep = st_got;
+		if (socketpair(AF_UNIX, SOCK_STREAM, 0, p3) < 0) { puts("R nosocket | C - | I -"); return; }
+		if (write(p3[0], "\x02\x41\x00", 3) != 3) { puts("R nosocket | C - | I -"); return; }
+		sock._id = p3[1];
+		mpt_stream_dopen(&ms, &sock, MPT_STREAMFLAG(Read) | MPT_STREAMFLAG(ReadBuf));
+		in.iov_len = st_tblen;
+		in.iov_base = malloc(st_tblen ? st_tblen : 1);
+		memcpy(in.iov_base, st_tb, st_tblen);
+		mpt_stream_memory(&ms, &in, 0);
+		ms._rd._dec = mpt_message_decoder(st_code);
+		r = mpt_stream_poll(&ms, POLLIN, 0);
+		printf("R poll=%d msgs=", r);
+		st_first = 1;
+		do {
+			size_t before = st_got;
+			r = mpt_stream_dispatch(&ms, st_cb, 0);
+			if (st_got == before) break;
+		} while (r >= 0 && (r & MPT_EVENTFLAG(Retry)) && ++n < 4096);
+		if (st_first) fputc('-', stdout);
+		printf(" n=%zu | C - | I -\n", st_got - keep);
+		st_got = keep;
+		if (ms._rd._dec) ms._rd._dec(&ms._rd._state, 0, 0);
+		ms._rd._dec = 0;
+		ms._rd.data.base = 0; ms._rd.data.max = ms._rd.data.len = 0;
+		mpt_stream_close(&ms);
+		free(in.iov_base);
+		close(p3[0]);
+	}
 	else if (!strcmp(op, "eof") && drv_nw == 2) {
 		/* the transport closes the receiver's connection: what has been delivered must still come out */
 		if (st_h2 >= 0) close(st_h2);
@@ -425,7 +464,7 @@ static void st_cmd(void)
 	}
 	else if (!strcmp(op, "dispatch") && drv_nw == 2) {
 		/* the consumer's loop: dispatch while a further message is reported */
-		int r, n = 0;
+		int r, n = 0, leak = 0;
 		size_t start = st_got;
 		printf("R msgs=");
 		st_first = 1;
@@ -440,10 +479,11 @@ static void st_cmd(void)
 		else do {
 			size_t before = st_got;
 			r = st_mode ? st_in->_vptr->dispatch(st_in, st_ev, 0) : mpt_stream_dispatch(&rx, st_cb, 0);
+			if (r >= 0 && (r & MPT_EVENTFLAG(CtlError))) leak = 1;
 			if (st_got == before) break;
 		} while (r >= 0 && (r & MPT_EVENTFLAG(Retry)) && ++n < 4096);
 		if (st_first) fputc('-', stdout);
-		printf(" n=%zu | C - | I -\n", st_got - start);
+		printf(" n=%zu%s | C - | I -\n", st_got - start, leak ? " ctlerror" : "");
 		if (getenv("ST_DEBUG")) fprintf(stderr, "dispatch ret=%d rd: len=%zu max=%zu off=%zu pos=%zu len=%zu msg=%zd curr=%zu ctx=%zx\n", r,
 			rx._rd.data.len, rx._rd.data.max, rx._rd.data.off, rx._rd._state.data.pos, rx._rd._state.data.len, rx._rd._state.data.msg, rx._rd._state.curr, (size_t) rx._rd._state._ctx);
 	}
